@@ -448,8 +448,21 @@ Section Obs.
 
   Definition o_is_script (e : oevent) : bool := match e with OScript _ _ | OInsVer _ _ _ | OOther _ => true | _ => false end.
 
+  (* transport encoding of a call log (lossless, done by checks/c18.py only where the events are literally
+     these): OSeg k from n = n scripts of stream k starting at index `from`, each executed and its version
+     recorded without error *)
+  Inductive oitem := OE (e : oevent) | OSeg (k : stream) (from n : nat).
+  Fixpoint seg_events (k : stream) (from n : nat) : list oevent :=
+    match n with
+    | O => []
+    | S n' => OScript (sid_at k from) ROk :: OInsVer (stream_k k) (N.of_nat (S from)) ROk :: seg_events k (S from) n'
+    end.
+  Definition expand (l : list oitem) : list oevent :=
+    flat_map (fun it => match it with OE e => [e] | OSeg k f n => seg_events k f n end) l.
+
   (* one process start as observed: injected outcomes, Update returned nil?, call log *)
-  Record orun := { or_os : list outcome; or_ok : bool; or_log : list oevent }.
+  Record orun := { or_os : list outcome; or_ok : bool; or_items : list oitem }.
+  Definition or_log (r : orun) : list oevent := expand (or_items r).
   (* a case: configuration, the runs in order, the database the fake ended with.  By construction of the
      generator the last two runs have no injected fault (c_clean = true): the first must converge, the
      second must be a no-op. *)
